@@ -71,3 +71,9 @@ claim("C07",
   "Histories of buy/upgrade/re-buy, plan-paid and pay-once posts (ordinary and boundary sizes x replication), same-block re-posts, deletes (own/foreign/unknown), real proofs, reward blocks that drop prover-less files and time jumps through plan expiry by 3 owners. After every step each plan's SpaceUsed must equal the summed footprint of the owner's live plan-paid files, stay within [0, SpaceAvailable], and a plan-paid post must have had a live plan with room. Five defects found (no return on delete/drop, negative sizes, double charge on re-post, int64 wrap in the room check) are fixed in /repo.",
   "plan-paid == Expires <= 0 (handler's branch condition); the by-owner index is trusted here and cross-checked against the by-merkle index by C17.",
   "DESIGN.md section 4 C07")
+
+claim("C14",
+  "model-based stateful property test (rapid state machine): quorum model (signed subset of named, fires once at |signed| >= m) compared after every message with LastProven / list membership of every pair and with the stored form",
+  "Generated provider populations (distinct domains, same-domain, idle, unregistered), all (form size, minimum) pairs with 0 <= m <= n <= 6, attestation and report forms requested by provers / anybody, then arbitrary attest/report messages by named, unnamed, repeated signers and the prover itself against open, never-existing and consumed forms with second requests after consumption. A fresh form must name exactly n distinct registered providers that hold a proof and never the prover; deadlines refresh / provers are removed exactly at the step the model fires and the form is then gone; complete flags equal the set of named signers.",
+  "If the prover is already gone when a quorum completes the code errors out and keeps the form: only 'no effect' is asserted; reward blocks are parameterised out of reach; fork mode without ante handler.",
+  "DESIGN.md section 4 C14")
